@@ -122,6 +122,18 @@ def gen_c10(rng, idx, tier, faults):
     ydef["storage"] = y_storage
     nlanes = 2 if faults else 1
     ops = []
+    if cv is None and rng.random() < 0.2:
+        # another estimator with another default fold assignment (shuffling flipped / another
+        # seed) was fitted on data of the same size earlier in this process: state shared
+        # between estimators (a module-level fold cache ...) would leak into the lanes
+        pr9 = dict(params)
+        pr9["n_jobs"] = None
+        pr9["shuffle"] = not params["shuffle"] if rng.random() < 0.7 else params["shuffle"]
+        pr9["random_state"] = (params["random_state"] if rng.random() < 0.5 else rng.choice([None, rng.randrange(1000)])) if pr9["shuffle"] else None
+        if isinstance(pr9["random_state"], dict) and not pr9["shuffle"]:
+            pr9["random_state"] = None
+        ops.append({"op": "NEW", "obj": "e9", "params": pr9})
+        ops.append({"op": "FIT", "obj": "e9", "env": {"joblib": {"mode": "inline", "workers": 2}, "rng": {"seed": _seed(rng)}}})
     for li in range(nlanes):
         pr = dict(params)
         pr["n_jobs"] = rng.choice([None, 1, 2, 3, -1])
@@ -138,6 +150,8 @@ def gen_c10(rng, idx, tier, faults):
         else:
             jb = {"mode": "inline", "workers": rng.randint(2, 3)}
         env = {"joblib": jb, "rng": {"seed": _seed(rng) if (faults or li == 0) else 12345}}
+        if li == 0:
+            env0 = env
         ops.append({"op": "NEW", "obj": f"e{li}", "params": pr})
         if faults and li == 0 and rng.random() < 0.12 and (cv is None or cv["type"] != "generator"):
             # the fit crashes at an arbitrary line; the caller fits the same object again
@@ -154,7 +168,7 @@ def gen_c10(rng, idx, tier, faults):
         # the caller reuses its X / y buffers: new values in the same array objects, then a
         # refit of the same estimator (judged against the reference on the new values)
         ops.append({"op": "MUTATE", "seed": _seed(rng)})
-        ops.append({"op": "FIT", "obj": "e0", "env": ops[1]["env"], "refit": True})
+        ops.append({"op": "FIT", "obj": "e0", "env": env0, "refit": True})
     elif rng.random() < 0.3 and (cv is None or cv["type"] != "generator"):
         # the caller re-parameterises the fitted estimator with set_params and fits it again
         # on the same data (coarse-to-fine grids, another criterion, another filter ...)
@@ -179,7 +193,7 @@ def gen_c10(rng, idx, tier, faults):
                 patch["n_jobs"] = rng.choice([None, 1, 2, 3])
         if patch:
             ops.append({"op": "SET", "obj": "e0", "params": patch})
-            ops.append({"op": "FIT", "obj": "e0", "env": ops[1]["env"], "refit": True, "reparam": True})
+            ops.append({"op": "FIT", "obj": "e0", "env": env0, "refit": True, "reparam": True})
     return {"heap": heap, "y": ydef, "ops": ops, "predict_seed": _seed(rng)}
 
 
@@ -492,6 +506,22 @@ class RidgeWorld:
             return
         self.count("fits_ok")
         folds = recorded["folds"]
+        if folds is None and cvspec is None:
+            # the default splitter was not consulted through the module-level seam (folds taken
+            # from somewhere else, e.g. a cache): the documented assignment is then PREDICTED -
+            # KFold(2, shuffle, random_state), an unseeded shuffle drawing from the ambient
+            # generator whose state at the start of this operation the simulator set
+            try:
+                from sklearn.model_selection import KFold as _KF
+
+                rsv = kw.get("random_state")
+                if p.get("shuffle", True) and rsv is None:
+                    rsv = np.random.RandomState(((op.get("env") or {}).get("rng") or {"seed": 12345}).get("seed", 12345) & 0x7FFFFFFF)
+                tr_, te_ = next(_KF(n_splits=2, shuffle=p.get("shuffle", True), random_state=rsv).split(np.empty((n, 0))))
+                folds = (np.array(tr_), np.array(te_))
+                self.stats["probes"]["folds_predicted_not_observed"] += 1
+            except Exception:  # noqa: BLE001
+                folds = None
         if folds is None:
             self.count("folds_not_observed")
             return
